@@ -201,10 +201,11 @@ class World:
 
 class Int:
     """bit vector, LSB first; atoms: 0 | 1 | ('p', field, i) | ('b', k) | ('n', atom) is not supported -> None = unknown"""
-    __slots__ = ('bits', 'signed', 'rec')
+    __slots__ = ('bits', 'signed', 'rec', 'remap')
 
-    def __init__(self, bits, signed=False, rec=None):
+    def __init__(self, bits, signed=False, rec=None, remap=None):
         self.bits, self.signed, self.rec = list(bits), signed, rec   # rec: scaled getter the integer came through
+        self.remap = remap      # (n, U): the all-ones pattern of the n-bit field `bits` stands for the value U
 
     def resize(self, w, signed=None):
         b = self.bits
@@ -212,7 +213,9 @@ class Int:
             nb = b[:w]
         else:
             nb = b + [(b[-1] if (self.signed and b) else 0)] * (w - len(b))
-        return Int(nb, self.signed if signed is None else signed, self.rec)
+        if self.remap and len(nb) < self.remap[0]:
+            raise Untranslatable('remapped field truncated')
+        return Int(nb, self.signed if signed is None else signed, self.rec, self.remap)
 
     def const(self):
         if all(x in (0, 1) for x in self.bits):
@@ -695,6 +698,8 @@ class Eval:
             return self.ev(n['inner'][1])
         a, b = self.ev(n['inner'][0]), self.ev(n['inner'][1])
         t = self.tyn(n)
+        if (isinstance(a, Int) and a.remap) or (isinstance(b, Int) and b.remap):
+            return Unknown('value with a not-available remap used in an expression')
         if isinstance(a, Unknown):
             return a
         if isinstance(b, Unknown):
@@ -1220,6 +1225,10 @@ class Eval:
                         return self.stmt(then)
                     return self.stmt(els) if els is not None else None
                 raise NeedFork()
+            if self.mode == 'parse' and els is None:
+                rm = self.na_remap_form(cond, then)
+                if rm:
+                    return None
             if self.mode == 'parse' and self.known:
                 used = set()
                 d = self.decide(cond, used)
@@ -1236,6 +1245,39 @@ class Eval:
             return self.symbolic_if(st, then, els)
         finally:
             self.cond_bit = None
+
+    def na_remap_form(self, cond, then):
+        """`if (x == 2^n-1) x = U;` where x holds exactly an n-bit payload field (zero-extended) and U is a constant whose
+        low n bits are ones: the field's all-ones "not available" pattern is handed back as the enumeration's own NA value.
+        Recognised from the source form; recorded on the value as remap=(n, U)."""
+        if cond[0] != 'cmp' or cond[1] != '==' or cond[3]:
+            return False
+        bits, c = cond[2], cond[4]
+        n = 0
+        while n < len(bits) and isinstance(bits[n], tuple) and bits[n][0] == 'b':
+            n += 1
+        if n == 0 or any(b != 0 for b in bits[n:]) or c != (1 << n) - 1:
+            return False
+        saved = dict(self.frame.vars)
+        try:
+            r = self.stmt(then)
+        except Untranslatable:
+            self.frame.vars = saved
+            return False
+        changed = [k for k in self.frame.vars if self.frame.vars[k] is not saved.get(k)]
+        ok = False
+        if r is None and len(changed) == 1:
+            old, new = saved.get(changed[0]), self.frame.vars[changed[0]]
+            u = new.const() if isinstance(new, Int) else None
+            if (isinstance(old, Int) and not old.remap and list(old.bits[:n]) == list(bits[:n]) and all(b == 0 for b in old.bits[n:])
+                    and u is not None and u >= (1 << n) - 1 and u % (1 << n) == (1 << n) - 1 and u < (1 << len(old.bits))):
+                self.frame.vars = saved
+                self.write(changed[0], Int(old.bits, old.signed, old.rec, (n, u)))
+                self.notes.append('%s: all-ones of the %d-bit field is returned as %d (not-available remap)' % (changed[0], n, u))
+                ok = True
+        if not ok:
+            self.frame.vars = saved
+        return ok
 
     def whole_uint_param(self, v):
         """name of the unsigned integer parameter whose unmodified value `v` is (zero-extended), else None"""
@@ -1704,7 +1746,8 @@ def build_pair(world, pid, sfn, pfn, stats, S=None, known=None):
         widths.append(wv)
     R['widths'] = widths
     # parser layout
-    pouts, opaque, pscaled = {}, [], {}
+    pouts, opaque, pscaled, remaps = {}, [], {}, {}
+    R['remaps'] = remaps
     if P:
         R['parser_ok'] = True
         R['guard'] = P.guard
@@ -1724,6 +1767,9 @@ def build_pair(world, pid, sfn, pfn, stats, S=None, known=None):
                 pouts[nme] = [r['off'] + i for i in range(8 * r['w'])]
                 pscaled[nme] = r
             elif isinstance(v, Int):
+                if v.remap:
+                    remaps[nme] = v.remap
+                    widths[idx[nme]] = v.remap[0]      # the field as such is n bits wide (the setter stores n bits of the NA value)
                 bits = []
                 bad = False
                 for b in v.bits:
@@ -1800,6 +1846,9 @@ def field_ok(R, o):
                     return False
     a, b = R['sscaled'].get(name), R['pscaled'].get(name)
     key = lambda r: None if r is None else (r['off'], r['w'], r['signed'], r['num'], r['exp'])
+    rm = R.get('remaps', {}).get(name)
+    if rm and not (rm[0] > 0 and W == rm[0] and len(bits) == rm[0] and rm[1] % (1 << rm[0]) == (1 << rm[0]) - 1):
+        return False
     return key(a) == key(b)
 
 
@@ -2025,6 +2074,8 @@ def emit_lean(results, gen_dir, stats, enum_worlds=None):
         L.append('  setterPrefixOnly := %s' % ('true' if R.get('setter_tail') else 'false'))
         L.append('  parserOK := %s' % ('true' if R['parser_ok'] else 'false'))
         L.append('  signedInts := [%s]' % ', '.join(str(i) for i, n_ in enumerate(names) if R['info'][n_].get('sfield', {}).get('kind') == 'sint'))
+        if R.get('remaps'):
+            L.append('  naRemap := [%s]' % ', '.join('(%d, %d, %d)' % (idx[k], v[0], v[1]) for k, v in R['remaps'].items()))
         if R.get('variant_of'):
             L.append('  variantOf := "%s"' % R['variant_of'])
             L.append('  setCond := %s' % lean_cond(R.get('set_cond'), idx))
@@ -2210,7 +2261,7 @@ def emit_glue(results, path, worlds):
          'enum Kind { K_UINT, K_SINT, K_ENUM, K_BOOL, K_SCALED, K_UNION, K_TEXT };',
          'struct Field { const char *name; Kind kind; int typeBits; int pTypeBits; int W; bool inSetter, inParser;',
          '  int sW; bool sSigned; double sRes; int pW; bool pSigned; double pRes;',
-         '  const long long *enumerators; int nEnum; int textKind; int textLen; };',
+         '  const long long *enumerators; int nEnum; int textKind; int textLen; long long naAlias; };',
          '// how the Lean driver prints a `set` / `parse` line for the setter path `cond` / the messages matching `guard`',
          'struct Variant { const char *id; bool (*cond)(const Val *); const int *guard; const int *modelOut;',
          '  bool modelSetter, modelParser; int modelPrefixBytes; const int *unkBytes; int nUnk; };',
@@ -2382,12 +2433,13 @@ def emit_glue(results, path, worlds):
                     p_ = (r_['w'], r_['signed'], Decimal(r_['text']))
                 if tx is None and sf and sf.get('kind') == 'text':
                     tx = (sf.get('textkind', 'str'), sf['bits'] // 8)
-            flines.append('  {"%s", %s, %d, %d, %d, %s, %s, %d, %s, %s, %d, %s, %s, %s, %d, %d, %d}' % (
+            flines.append('  {"%s", %s, %d, %d, %d, %s, %s, %d, %s, %s, %d, %s, %s, %s, %d, %d, %d, %dLL}' % (
                 nm, kind, tb, ptb, R['widths'][i], 'true' if f.get('in_setter') and sf else 'false', 'true' if (pf or ptext) else 'false',
                 s_[0] if s_ else 0, 'true' if (s_ and s_[1]) else 'false', cdec(s_[2]) if s_ else '0.0',
                 p_[0] if p_ else 0, 'true' if (p_ and p_[1]) else 'false', cdec(p_[2]) if p_ else '0.0',
                 ('en_%s_%d' % (cid, i)) if en else 'nullptr', len(en) if en else 0,
-                {'str': 1, 'ais': 2, 'var': 3}.get(tx[0], 0) if tx else 0, (tx[1] or 0) if tx else 0))
+                {'str': 1, 'ais': 2, 'var': 3}.get(tx[0], 0) if tx else 0, (tx[1] or 0) if tx else 0,
+                R.get('remaps', {}).get(nm, (0, -1))[1]))
         H.append('static const Field f_%s[] = {\n%s\n};' % (cid, ',\n'.join(flines)))
         H.append('static void set_%s(tN2kMsg &m, const Val *v) {\n%s\n  %s(%s);\n}' % (cid, '\n'.join(set_lines), R['setter_name'], ', '.join(set_args)))
         if P:
